@@ -29,7 +29,8 @@
 
 namespace {
 constexpr int kMax = 48;
-constexpr int kGateBase = 32; // ids >= kGateBase are gate tasks
+constexpr int kGateBase = 32; // ids >= kGateBase are gate tasks: 32.. gates of the set, 40.. gates of the pool
+constexpr int kPoolGateBase = 40;
 
 struct Tagged {
   int tag;
@@ -57,6 +58,7 @@ struct World {
   mc::Shared<int> caller_got[kMax]; // the exception of task i propagated out of the schedule call
   mc::Shared<int> next{0};
   mc::Shared<int> ngates{0};
+  mc::Shared<int> npoolgates{0};
   mc::Shared<int> gate_open{0};
   mc::Shared<int> gates_started{0};
   mc::Shared<int> progress{0}; // submission steps completed by the program runner
@@ -74,11 +76,12 @@ struct World {
     return id;
   }
   int fresh_gate() { return kGateBase + ngates.add(1); }
+  int fresh_pool_gate() { return kPoolGateBase + npoolgates.add(1); }
 
   // ---- the cancellation oracle, evaluated at the first instruction of a body
   void cancel_oracle(int id) {
     const std::atomic<bool>* cf = cflag.get();
-    if (!cf || !raw(*cf)) return;
+    if (id >= kPoolGateBase || !cf || !raw(*cf)) return; // pool gates are not tasks of the set
     canceled_seen.set(1);
     CallCtx* c = tl_call;
     if (!c) {
@@ -169,6 +172,17 @@ std::vector<Step> get_prog(const mc::Params& P, const char* def) {
   for (int i = 0; i < len; i++) chosen += alpha[(size_t)mc::choose((int)alpha.size())];
   mc::observe("prog", (long)mc::hash_str(chosen.c_str()));
   return parse_prog(chosen);
+}
+
+// mask >= 0: as given; mask < 0: every subset of the program's tasks (mc::choose)
+unsigned get_mask(const mc::Params& P, const std::vector<Step>& prog, long def) {
+  long m = P("mask", def);
+  if (m >= 0) return (unsigned)m;
+  int tasks = 0;
+  for (const Step& st : prog) tasks += st.k;
+  unsigned mask = (unsigned)mc::choose(1 << tasks);
+  mc::observe("mask", (long)mask);
+  return mask;
 }
 
 template <class F>
@@ -355,14 +369,14 @@ void submit_set_gates(SetT& set, dispenso::ThreadPool& pool, World& w, int g) {
 }
 void submit_pool_gates(dispenso::ThreadPool& pool, World& w, int pg) {
   for (int i = 0; i < pg; i++) {
-    int id = w.fresh_gate();
+    int id = w.fresh_pool_gate();
     pool.schedule([&w, id] { w.body(id); }, dispenso::ForceQueuingTag());
   }
 }
 void settle_gates(dispenso::ThreadPool& pool, World& w) {
   long n = (long)pool.numThreads();
   long freeWorkers = n - (dispenso::detail::PerPoolPerThreadInfo::isPoolRecursive(&pool) ? 1 : 0);
-  long want = std::min<long>(w.ngates.get(), freeWorkers);
+  long want = std::min<long>(w.ngates.get() + w.npoolgates.get(), freeWorkers);
   if (want > 0) mc::block_until([&w, want] { return w.gates_started.get() >= want; });
 }
 
@@ -536,7 +550,7 @@ MC_HARNESS(cancel) {
   mc::observe("pos", cfg.pos);
   const std::string& src = cfg.src;
   World w;
-  w.mask = (unsigned)P("mask", 0);
+  w.mask = get_mask(P, cfg.prog, 0);
   w.strict = P("strict", 0) != 0;
   MC_CHECK(cfg.n >= 1 || (cfg.g == 0 && cfg.pg == 0), "harness: gates need a worker");
   {
@@ -606,7 +620,7 @@ MC_HARNESS(exc) {
   std::string kind = P.s("set", "ts"), ws = P.s("ws", "ww8"), rs = P.s("r", "n");
   std::vector<Step> prog = get_prog(P, "q");
   World w;
-  w.mask = (unsigned)P("mask", 1);
+  w.mask = get_mask(P, prog, 1);
   w.submitter.set(mc_self_id());
   MC_CHECK(n >= 1 || g == 0, "harness: gates need a worker");
   {
